@@ -176,3 +176,13 @@ class Model:
                     res.append({'st': e, 'pr': False, 'ord': ids, 'uno': ids, 'pass': v == '1'})
             out.append(res)
         return out
+
+    def dead(self, items):
+        """items: [(type, [names])] -> [bool]: the multiset of children is PROVABLY not extendable to a word (Parikh.dead_sound)"""
+        lines = ['dead %d %s' % (self.idx[t], ' '.join(str(self.sym[s]) for s in w)) for t, w in items]
+        return [x == '1' for x in self.raw(lines)]
+
+    def witness(self, items):
+        """items: [(type, multiset, word)] -> [bool]: word is in the language and dominates the multiset (Parikh.witness_sound)"""
+        lines = ['wit %d %s / %s' % (self.idx[t], ' '.join(str(self.sym[s]) for s in m), ' '.join(str(self.sym[s]) for s in w)) for t, m, w in items]
+        return [x == '1' for x in self.raw(lines)]
